@@ -171,11 +171,15 @@ def rename_kwargs(rng):
         base = "g" + "".join("k" if ch == "0" else "a" for ch in path)
         return f"{leaf}_{base}" if leaf is not None else base + "i"
 
+    multi = rng.random() < 0.5
+
     def fname(i):
-        return letters[i]
+        # one-letter names in reversed order, or multi-character names built afresh at every occurrence (equal
+        # strings, distinct objects) whose string order ('fam10' < 'fam9') differs from their numeric order
+        return ("fam%d" % (i + 8)) if multi else letters[i]
 
     def fidx(name):
-        return letters.index(name)
+        return int(name[3:]) - 8 if multi else letters.index(name)
 
     return {"sname": sname, "oname": oname, "fname": fname}, fidx
 
